@@ -41,6 +41,15 @@ REFUSED_ACTIONS = [("redirect", ":create", "a@b.c"), ("fileinto", ":copyy", "F")
                    ("removeflag", ":create", "x"), ("vacation", ":days"), ("header", "x")]
 
 
+# every tag that takes a parameter, with the parameter as a single string and as a list where both are legal, twice each in
+# different company: these go through the sequences in every order of two (a class-level definition touched while one of them is
+# printed shows when the other is parsed next)
+DIRECTED = [b'require "body"; if body :content "text" :contains "x" { discard; }', b'require "body"; if body :content ["text", "html"] :contains "x" { keep; }',
+            b'if header :comparator "i;octet" :is "a" "b" { keep; }', b'require ["date", "relational"]; if date :zone "+0100" :value "ge" "date" "hour" "09" { keep; }',
+            b'require "relational"; if header :count "gt" "a" "3" { stop; }', b'require ["vacation"]; vacation :subject "s" :from "a@b.c" :handle "h" :addresses ["x@y.z"] "r";',
+            b'require "body"; if body :raw :contains "x" { keep; }', b'require "date"; if currentdate :originalzone :is "date" "x" { keep; }']
+
+
 def script_pool(ctx, n):
     r = rng("c13-pool")
     g = gen_scripts.Gen(table_of(ctx), r)
@@ -69,13 +78,15 @@ def run(ctx):
     r = rng("c13")
     nseq = 400 if ctx.tier == "quick" else 4000
     pool = script_pool(ctx, 150 if ctx.tier == "quick" else 1200)
+    pool = pool + [d_ for d_ in DIRECTED if d_ not in pool]
     model = dict(zip(pool, run_driver(["parse " + hx(t) for t in pool])))
     base_factory = pristine_factory()
     viol, diffs = [], []
     evals = nontriv = 0
     samples = []
-    for s in range(nseq):
-        seq = [r.choice(pool) for _ in range(r.randint(2, 6))]
+    directed_seqs = [[a_, b_] for a_ in DIRECTED for b_ in DIRECTED if a_ != b_]
+    for s in range(nseq + len(directed_seqs)):
+        seq = [r.choice(pool) for _ in range(r.randint(2, 6))] if s < nseq else directed_seqs[s - nseq]
         reused = Parser()
         standby = [Parser(), Parser()]      # objects created before the sequence starts and used somewhere in it
         hist = []
